@@ -79,7 +79,8 @@ class C10(Check):
     lean_targets = ["drv_c10"]
     driver = "drv_c10"
     theorems = ["Pox.C10.ctl_terminates", "Pox.C10.sw_terminates", "Pox.C10.ctl_unguarded_spins", "Pox.C10.sw_contained",
-                "Pox.C10.siblings_untouched", "Pox.C10.ctl_no_overread", "Pox.C10.sw_no_overread"]
+                "Pox.C10.siblings_untouched", "Pox.C10.ctl_no_overread", "Pox.C10.sw_no_overread",
+                "Pox.C10.ctl_disconnect_stops", "Pox.C10.ctl_no_disconnect_same"]
     anchors = ()      # the CPU-time budget and the decoder recorders are this check's instrumentation; no line tracer here
     design_ref = "DESIGN.md §5 C10"
     technique = ("Lean 4 proof over the two read-loop models with the decoders completely unconstrained (termination by a consumption bound, no escaping exception on the switch side, "
@@ -140,6 +141,15 @@ class C10(Check):
                     for v in (0, 1, 4, 7, 8, 9, 12, 16, 0xffff):
                         b = bytearray(m); b[off] = v >> 8; b[off + 1] = v & 0xff
                         cases.append(self._mk(rng, side, bytes(b)))
+            # controller side: the handler of the k-th valid message disconnects the connection (a failed send, a
+            # failed handshake): nothing after it may be dispatched, in this read or later ones
+            if side == "ctl":
+                for k in range(4):
+                    for cuts in ((), (9,), (30, 31)):
+                        c = self._mk(rng, side, self._valid(rng), npre=2, npost=2, cuts=cuts)
+                        seq = c["pre"] + [c["bad"]] + c["post"]
+                        c["disc"] = [seq[k]]
+                        cases.append(c)
             # messages near the 64 KiB limit: unknown type, bad length inside, and valid
             for t, L in ((0x63, 65528), (0x63, 65535), (2, 65535), (10, 65000), (13, 65528)):
                 body = bytes((i * 7) & 0xff for i in range(L - 8))
@@ -237,7 +247,11 @@ class C10(Check):
         socks = [RSock() for _ in range(3)]
         cons = [of_01.Connection(s) for s in socks]
         cons[0].unpackers = [wrap(u) for u in cons[0].unpackers]
-        cons[0].handlers = [deliver] * 256
+        disc = set(case.get("disc", []))
+        def deliver_d(con, msg):
+            deliver(con, msg)
+            if delivered[-1] in disc: con.disconnect("handler gave up", defer_event=True)
+        cons[0].handlers = [deliver_d] * 256
         sib_del = [[], []]
         for k in (1, 2):
             cons[k].handlers = [(lambda c, m, k=k: sib_del[k - 1].append(bytes(m.pack()).hex()))] * 256
@@ -376,7 +390,7 @@ class C10(Check):
 
     def model_request2(self, case, obs):
         if "skipped" in obs or obs["status"] == "spin" or not obs["loop_alive"]: return None
-        return {"side": case["side"], "chunks": obs["chunks"][:len(obs["counts"])], "table": obs["table"]}
+        return {"side": case["side"], "chunks": obs["chunks"][:len(obs["counts"])], "table": obs["table"], "disc": case.get("disc", [])}
 
     def impl_view(self, case, obs):
         v = {"delivered": obs["delivered"], "counts": obs["counts"], "status": obs["status"]}
@@ -400,6 +414,12 @@ class C10(Check):
             if obs["sib_status"][k] != "alive": return side + ": sibling connection %s" % obs["sib_status"][k]
             if obs["sib_delivered"][k] != case["sib"][k]: return side + ": sibling connection's messages changed or lost"
         pre = case["pre"]
+        if case.get("disc"):
+            seq = case["pre"] + [case["bad"]] + case["post"]
+            k = seq.index(case["disc"][0])
+            if obs["delivered"] != seq[:k + 1]: return "ctl: %d messages dispatched, expected exactly the %d up to the one whose handler disconnected" % (len(obs["delivered"]), k + 1)
+            if obs["status"] == "alive" and len(obs["delivered"]) < len(seq) and obs["buf"] == "": return "ctl: input after the disconnect was consumed"
+            return None
         if obs["delivered"][:len(pre)] != pre: return side + ": valid messages before the malformed bytes were not delivered"
         if obs["splice"]: return side + ": " + obs["splice"]
         if side == "sw":
